@@ -134,6 +134,16 @@ def run_case(case, ctx):
                                   f"lead_coefficient{idx} = {coef_arr[idx]} expected {M.c_py(value)} "
                                   f"for {pm[idx]} (graded={graded}, reverse={reverse})", case)
                     return
+            # the returned arrays are the caller's: overwrite them, the polynomial must not change
+            for res in (exp, coef_arr):
+                if isinstance(res, numpy.ndarray) and res.size and res.flags.writeable:
+                    res[...] = 55
+            ctx.count("result_overwritten")
+            if O.mismatch(poly, pm) is not None:
+                ctx.violation(dict(facts, failure="aliased_result"),
+                              f"after writing into the arrays lead_exponent / lead_coefficient "
+                              f"returned, the polynomial reads {poly!r:.160}", case)
+                return
         elif fn == "isconstant":
             want = all(pm[i].is_const() for i in elements)
             for label, got in (("function", numpoly.isconstant(poly)), ("method", poly.isconstant())):
@@ -158,6 +168,19 @@ def run_case(case, ctx):
             if isinstance(got, numpoly.ndpoly) or O.mismatch(got, pm) is not None:
                 ctx.violation(dict(facts, failure="value"),
                               f"tonumpy = {got!r:.200} for {M.describe(pm)}", case)
+                return
+            # what a query returns belongs to the caller: writing into it must not change what the
+            # polynomial says afterwards
+            if isinstance(got, numpy.ndarray) and got.size and got.flags.writeable and \
+                    got.dtype.kind in "iufc":
+                ctx.count("result_overwritten")
+                got[...] = 99
+                again = numpoly.tonumpy(poly)
+                if O.mismatch(again, pm) is not None or O.mismatch(poly, pm) is not None:
+                    ctx.violation(dict(facts, failure="aliased_result"),
+                                  f"after writing into the array tonumpy returned, the polynomial "
+                                  f"reads {poly!r:.120} / tonumpy {again!r:.120}, expected "
+                                  f"{M.describe(pm)}", case)
         elif fn == "todict":
             got = poly.todict()
             total = M.oarray(pm.shape)
